@@ -2,6 +2,7 @@ package main
 
 import (
 	"fmt"
+	"runtime"
 
 	"github.com/krotik/ecal/engine/pool"
 	"simrt"
@@ -20,6 +21,7 @@ type c09Op struct {
 	Children int    `json:"children,omitempty"`  // task submits further tasks
 	PauseNs  int    `json:"pause,omitempty"`     // submitter sleeps before the op
 	WaitNext bool   `json:"wait_next,omitempty"` // kind "pair": the first task blocks until the second (added right behind it) is done
+	Exit     bool   `json:"exit,omitempty"`      // the task ends its worker goroutine (runtime.Goexit, as a debugger kill of a sink thread does)
 }
 
 type c09Resize struct {
@@ -37,6 +39,8 @@ type c09Plan struct {
 	TooMany    int         `json:"too_many_threshold,omitempty"` // regulation thresholds (0 = pool default)
 	TooFew     int         `json:"too_few_threshold,omitempty"`
 	Pollers    int         `json:"state_pollers,omitempty"` // tasks calling State()/Status()/WorkerCount() while everything else runs
+	Exits      int         `json:"exits,omitempty"`         // number of ops with Exit
+	NoPair     bool        `json:"no_pair,omitempty"`
 }
 
 type lifoQueue struct{ q []pool.Task }
@@ -128,7 +132,28 @@ func c09Gen(r *simrt.RNG, tier string) interface{} {
 	if r.Bool(0.2) {
 		p.Pollers = 1 + r.Intn(2)
 	}
-	if r.Bool(0.15) {
+	if len(p.Resizes) == 0 && p.Workers >= 2 && r.Bool(0.12) {
+		// some tasks end the worker that runs them; at least one worker (two, if a pair of
+		// dependent tasks follows) survives
+		left := p.Workers - 2
+		if left < 1 {
+			left = 1
+		}
+		for si := range p.Submitters {
+			for oi := range p.Submitters[si] {
+				op := &p.Submitters[si][oi]
+				if op.Kind == "add" && left > 0 && r.Bool(0.4) {
+					op.Exit, op.Fail, op.Children = true, false, 0
+					left--
+					p.Exits++
+				}
+			}
+		}
+		if p.Workers-p.Exits < 2 {
+			p.NoPair = true
+		}
+	}
+	if !p.NoPair && r.Bool(0.15) {
 		// one pair of back-to-back submissions where the first task waits for the second:
 		// needs a second worker to be woken although the queue was not empty
 		if p.Workers < 2 {
@@ -195,10 +220,28 @@ func c09Shrink(pi interface{}) []interface{} {
 			}
 		}
 	}
-	if p.Workers > 1 {
+	needed := 1 + p.Exits
+	for _, ops := range p.Submitters {
+		for _, op := range ops {
+			if op.Kind == "pair" {
+				needed = 2 + p.Exits
+			}
+		}
+	}
+	if p.Workers > 1 && (p.Exits == 0 || p.Workers-1 >= needed) {
 		q := clone()
 		q.Workers = p.Workers - 1
 		out = append(out, q)
+	}
+	for si := range p.Submitters {
+		for oi := range p.Submitters[si] {
+			if p.Submitters[si][oi].Exit {
+				q := clone()
+				q.Submitters[si][oi].Exit = false
+				q.Exits--
+				out = append(out, q)
+			}
+		}
 	}
 	if p.LIFO {
 		q := clone()
@@ -238,6 +281,7 @@ type c09State struct {
 	nextID   int
 	running  int
 	lastSize int
+	exited   int // workers ended by their task
 }
 
 type c09Task struct {
@@ -280,6 +324,11 @@ func (t *c09Task) Run(tid uint64) error {
 	}
 	st.running--
 	st.done[t.id] = true
+	if t.op.Exit {
+		simrt.Count("fault_worker_goroutine_ended_by_task")
+		st.exited++
+		runtime.Goexit()
+	}
 	if t.op.Fail {
 		return fmt.Errorf("task %d failed", t.id)
 	}
@@ -438,9 +487,9 @@ func c09Run(pi interface{}) {
 		stopPollers() // (State/Status/WorkerCount wake nobody; still: nothing at all is called from here on)
 		simrt.WaitQuiescent()
 		allDone("passive (no further call)")
-		if c := tp.WorkerCount(); c != lastCount {
+		if c := tp.WorkerCount(); c != lastCount-st.exited {
 			simrt.Fail("oracle:worker-count", "worker-count/passive",
-				"worker count did not converge: %d workers at quiescence, last request %d", c, lastCount)
+				"worker count did not converge: %d workers at quiescence, last request %d, %d worker(s) ended by their task", c, lastCount, st.exited)
 		}
 	case "waitall":
 		tp.WaitAll()
@@ -461,6 +510,12 @@ func c09Run(pi interface{}) {
 					k = 2 // a task that waits for another one needs a second worker
 				}
 			}
+		}
+		if p.Exits > 0 {
+			// a worker that ends on its own while a shrinking SetWorkerCount counts kills is
+			// outside the statement (DESIGN.md 9, observations): resize after things settled
+			stopPollers()
+			simrt.WaitQuiescent()
 		}
 		tp.SetWorkerCount(k, true)
 		lastCount = k
